@@ -548,10 +548,10 @@ func cmdCheck(args []string) int {
 	if !*keep && exit == 0 && *tier == "quick" {
 		// keep the SMT files of the last run for audit; they are small
 	}
-	if len(vacuous) > 0 || len(W.errors) > 0 {
-		if exit == 0 {
-			exit = 2
-		}
+	if (len(vacuous) > 0 || len(W.errors) > 0) && exit == 0 {
+		// part of the contracts could not be applied to this tree: what was explored held, the rest is not
+		// decided (the evidence file says so: level "other"). Not a violation, so not a failing exit code.
+		fmt.Printf("UNDECIDED property=%s: %d contract clause(s) do not apply to this tree, %d vacuous obligation(s); nothing that was checked failed\n", prop, len(W.errors), len(vacuous))
 	}
 	// An obligation that was proved on the unchanged tree and is no longer generated means the
 	// code it was attached to is gone; the property is then undecided for that part, which is reported
